@@ -58,8 +58,21 @@ def _call(f, args: list, spec: list):
     return f(**dict(pairs))
 
 
+def _qubit(spec: list, i: int, q):
+    """a qubit operand written as an int, a Qubit or a numpy integer: the library takes all three (QubitLike). The
+    spelling of position i is a function of the spec, so a case replays; over a run all spellings occur everywhere."""
+    import zlib
+
+    from opensquirrel.ir import Qubit
+
+    if not isinstance(q, int) or isinstance(q, bool):
+        return q
+    k = (zlib.crc32(repr(spec).encode()) >> (5 + 2 * i)) % 4
+    return Qubit(q) if k == 1 else (np.int64(q) if k == 2 else q)
+
+
 def build_stmt(spec: list, funcs: dict[str, Any] | None = None):
-    from opensquirrel.ir import Bit, BlochSphereRotation, Comment, ControlledGate, Float, MatrixGate
+    from opensquirrel.ir import Bit, BlochSphereRotation, Comment, ControlledGate, Float, Int, MatrixGate
 
     funcs = funcs or default_functions()
     k = spec[0]
@@ -69,19 +82,26 @@ def build_stmt(spec: list, funcs: dict[str, Any] | None = None):
         conv = []
         for i, a in enumerate(args):
             kind = sig[i] if sig and i < len(sig) else ("f" if isinstance(a, float) else "q")
-            conv.append(Float(a) if kind == "f" else a)
+            if kind == "f":
+                conv.append(Float(a))
+            elif kind == "q":
+                conv.append(_qubit(spec, i, a))
+            elif kind == "i" and isinstance(a, int) and not isinstance(a, bool) and len(repr(spec)) % 2 == 0:
+                conv.append(Int(a))
+            else:
+                conv.append(a)
         return _call(funcs[name], conv, spec)
     if k == "bsr":
-        return BlochSphereRotation(qubit=spec[1], axis=tuple(spec[2]), angle=spec[3], phase=spec[4])
+        return BlochSphereRotation(qubit=_qubit(spec, 0, spec[1]), axis=tuple(spec[2]), angle=spec[3], phase=spec[4])
     if k == "ctrl":
-        return ControlledGate(spec[1], build_stmt(spec[2], funcs))
+        return ControlledGate(_qubit(spec, 0, spec[1]), build_stmt(spec[2], funcs))
     if k == "mat":
         m = np.array([[complex(re, im) for re, im in row] for row in spec[2]], dtype=np.complex128)
-        return MatrixGate(m, spec[1])
+        return MatrixGate(m, [_qubit(spec, i, q) for i, q in enumerate(spec[1])])
     if k in ("measure", "measure_z"):
-        return _call(funcs[k], [spec[1], Bit(spec[2])], spec)
+        return _call(funcs[k], [_qubit(spec, 0, spec[1]), Bit(spec[2])], spec)
     if k == "reset":
-        return _call(funcs["reset"], [spec[1]], spec)
+        return _call(funcs["reset"], [_qubit(spec, 0, spec[1])], spec)
     if k == "comment":
         return Comment(spec[1])
     raise ValueError(f"unknown spec {spec!r}")
